@@ -6,7 +6,7 @@ SPEC = {
     'prop_files': ['theories/Properties/C11.v'],
     'coq_targets': ['theories/Properties/C11.vo', 'theories/C11/Corr.vo', 'theories/Properties/W_json.vo'],
     'closure_dirs': ['theories/C11', 'theories/Wire/Json.v', 'theories/Wire/JsonProofs.v', 'theories/Wire/JsonRT.v', 'theories/Wire/JsonSkip.v',
-                     'theories/Wire/JsonDepth.v', 'theories/Wire/JsonTotal.v', 'theories/Properties/W_json.v'],
+                     'theories/Wire/JsonDepth.v', 'theories/Wire/JsonTotal.v', 'theories/Wire/JsonLeaf.v', 'theories/Properties/W_json.v'],
     'known_aliases': ['Wcbor', 'Wmsgpack', 'Wsimple', 'Wbinc', 'Wjson', 'C01', 'C15'],
     'harness': 'c11',
     'args': {
@@ -18,8 +18,9 @@ SPEC = {
     'assumptions': [
         'typed decoding consumes the bytes decoding into interface{} consumes (the wire models have one decode parser; the typed drivers calls are modelled as functions of the decoded tree, Generic/Dec.v); checked on the implementation by the seq stream (NumBytesRead after typed / naked / Raw / struct-with-unknown-fields positions)',
         'the bytes nextValueBytes returns are the input bytes the walker passed (reader recording: bytesDecReader z.b[z.r:z.c], ioDecReader buf): modelled as [capture] for cbor/msgpack/binc, explicit in the simple model; checked by the Raw-bytes oracle on both transports',
+        'cbor: C11_cbor_seq covers every item lib_supports_t admits (times only in the RFC 3339 form, UTC year 0..9999); the tag-1 float form of a non-zero time is covered by the harness only',
         'wire models hand written, tied by their own checks (Wcbor, Wmsgpack, Wsimple, Wbinc) and here by the model stream (sequences on one Encoder / one Decoder)',
-        'json: C11_json_skip_partial / C11_json_raw_partial / C11_json_seq_partial inherit the hypothesis leaf_laws L of the json wire theorems (Properties/W_json.v: lexical laws of string quoting, float and time texts = property C09\'s domain, not yet discharged for the concrete leaf c09_leaf); on the implementation the json half is checked by the direct oracle (seq stream), the json wire correspondence is Wjson\'s',
+        'json: C11_json_skip_partial / C11_json_raw_partial / C11_json_seq_partial are stated for the C09 leaf c09_leaf_of O; the string and integer laws are discharged from the C09 theorems (Wire/JsonLeaf.v c09_leaf_laws); the remaining hypothesis is float_time_laws: strconv shortest float formatting, parseFloat64 on the texts the encoder writes and the RFC 3339 time text (oracle, not modelled); on the implementation the json half is checked by the direct oracle (seq stream), the json wire correspondence is Wjson\'s',
     ],
     'trusted_extra': ['modelled, not verified: decoder.swallow / structFieldNotFound / kArray excess-element handling, rawBytes, Encoder.rawBytes (writeBytesAsis) - exercised by the seq stream oracle only'],
 }
@@ -30,6 +31,6 @@ def main(chk):
 MANIFEST = {
     'category': 'proof',
     'technique': 'Coq proof (induction on the value list over an abstract record of per-value laws, instantiated with the wire theorems of four formats) + vm_compute correspondence of the sequence model against one real Encoder / one real Decoder + direct oracle on the API (five formats, bytes and io transports, random consumer per position)',
-    'text': 'C11_seq_generic / C11_seq_exact_generic: for any format whose decode and walker obey the per-value laws, any number of values and any per-position consumer (typed, interface{}, skip, Raw), the stream of successive Encode calls is read back in order and completely and NumBytesRead after call i is the sum of the first i encoding lengths (within the format\'s delimiter slack). Instantiated (closed by exact) for msgpack, simple, binc (symbol tables threaded; F11-1 repaired), cbor (partial: decode law excludes non-zero times) and json (C11_json_*_partial: tokenizer state with the pending token as per-instance state, slack = 1 = the one permitted delimiter; partial because they inherit the hypothesis leaf_laws L of the json wire theorems, C09\'s lexical laws, not yet discharged for c09_leaf); per-format skip / raw extents from the wire theorems.',
-    'note': 'Trusted: Coq kernel, hand-written wire models (tied by their own checks and by the model stream here), the reading of typed decoding as a function of the decoded tree, Go toolchain. the json theorems hold under leaf_laws L (not discharged for the concrete leaf).',
+    'text': 'C11_seq_generic / C11_seq_exact_generic: for any format whose decode and walker obey the per-value laws, any number of values and any per-position consumer (typed, interface{}, skip, Raw), the stream of successive Encode calls is read back in order and completely and NumBytesRead after call i is the sum of the first i encoding lengths (within the format\'s delimiter slack). Instantiated (closed by exact) for msgpack, simple, binc (symbol tables threaded; F11-1 repaired), cbor (C11_cbor_seq / C11_cbor_extent / C11_cbor_raw_redecode: full over the extended decode law Wcbor_dec_enc, which admits times written under TimeRFC3339 - C11_cbor_time_admitted; the tag-1 float form of non-zero times stays in the _partial theorems) and json (C11_json_*_partial for the C09 leaf: tokenizer state with the pending token as per-instance state, slack = 1 = the one permitted delimiter; string and integer laws discharged from C09, partial because float_time_laws - strconv float formatting / parsing and the time text oracle - remains a hypothesis); per-format skip / raw extents from the wire theorems.',
+    'note': 'Trusted: Coq kernel, hand-written wire models (tied by their own checks and by the model stream here), the reading of typed decoding as a function of the decoded tree, Go toolchain. the json theorems hold under float_time_laws (strconv float texts and the time text are an oracle); cbor times in the float form are outside the proved decode law.',
 }
